@@ -47,8 +47,7 @@ theorem Prog.runStack_spec {α : Type} (zl : Prog.Inflate) (p : Prog α) :
     obtain ⟨h1, h2, h3, h4, h5⟩ := Stack.readFull_spec st n hI
     simp only [Prog.runStack, Prog.runPure]
     have := ih (st.readFull n).1 { (st.readFull n).2 with lazyUsed := (st.readFull n).2.lazyUsed || (!eager && n != 0) }
-      { consumed := c.consumed + (if n ≤ st.view.length then n else st.view.length), steps := c.steps + 1,
-        alloc := c.alloc + Prog.readAlloc eager n (if n ≤ st.view.length then n else st.view.length) }
+      { c with consumed := c.consumed + (if n ≤ st.view.length then n else st.view.length), steps := c.steps + 1, alloc := c.alloc + Prog.readAlloc eager n (if n ≤ st.view.length then n else st.view.length), efail := c.efail + (if eager && !(decide (n ≤ st.view.length)) then n else 0) }
       (Stack.inv_lazy _ _ h1)
     rw [Stack.view_lazy, Stack.endErr_lazy, h5, h2] at this
     rw [← h4]
